@@ -177,8 +177,25 @@ def run(ctx):
                 ctor_sites.append((m2, q2, f2, call))
     allowed_ctor = {'is_protein_group', 'is_ligand_group_by_groups', 'is_ligand_group_by_marvin_pkas',
                     'is_ion_group', 'Group.clone'}
+    def returned_local(call, f2):
+        """`g = Ctor(atom)` where g is only ever tested against None and returned"""
+        par = call._parent
+        if not (isinstance(par, ast.Assign) and len(par.targets) == 1 and isinstance(par.targets[0], ast.Name)):
+            return False
+        g = par.targets[0].id
+        loads = [n for n in walk_no_nested(f2) if isinstance(n, ast.Name) and n.id == g
+                 and isinstance(n.ctx, ast.Load)]
+        for n in loads:
+            p_ = n._parent
+            if isinstance(p_, ast.Return) and p_.value is n:
+                continue
+            if isinstance(p_, ast.Compare) and len(p_.ops) == 1 and isinstance(p_.ops[0], (ast.Is, ast.IsNot)) \
+                    and isinstance(p_.comparators[0], ast.Constant) and p_.comparators[0].value is None:
+                continue
+            return False
+        return bool(loads)
     for m2, q2, f2, call in ctor_sites:
-        in_ret = isinstance(call._parent, ast.Return)
+        in_ret = isinstance(call._parent, ast.Return) or returned_local(call, f2)
         if q2 == 'Group.clone':
             in_ret = True
         if q2.endswith('.__init__') and isinstance(call.func, ast.Attribute):
@@ -190,7 +207,7 @@ def run(ctx):
     for m2, q2, f2, call, names_ in table_sites:
         for cname_ in names_:
             ctx.ob('C01.R3', 'constructor-site:%s:%s[%s]' % (q2, norm(call.func.value), cname_),
-                   q2 in allowed_ctor and isinstance(call._parent, ast.Return),
+                   q2 in allowed_ctor and (isinstance(call._parent, ast.Return) or returned_local(call, f2)),
                    'a group object is created only by a classifier, as the value it returns at once '
                    '(here through a table of classes)', m2, call)
     ctx.need('C01.R3', 25)
@@ -415,9 +432,19 @@ def run(ctx):
     # residue_type source
     rt = [s for s in walk_no_nested(gi) if isinstance(s, ast.Assign)
           and norm(s.targets[0]) == 'self.residue_type']
-    ok = len(rt) == 2 and norm(rt[0].value) == 'self.atom.res_name' and \
-        norm(rt[1].value) == 'self.atom.terminal' and \
-        any(p and t == 'self.atom.terminal' for t, p in fact_texts(rt[1], gi))
+    owners = ['self.atom'] + [a.arg for a in gi.args.args if a.arg != 'self'][:1]
+    ok = False
+    for o_ in owners:
+        # the residue name, replaced by the terminus tag when there is one - as two
+        # statements or as one conditional expression
+        if len(rt) == 2 and norm(rt[0].value) == o_ + '.res_name' and norm(rt[1].value) == o_ + '.terminal' \
+                and any(p and t == o_ + '.terminal' for t, p in fact_texts(rt[1], gi)):
+            ok = True
+        if len(rt) == 1 and norm(rt[0].value) in (
+                '%s.terminal if %s.terminal else %s.res_name' % (o_, o_, o_),
+                '%s.res_name if not %s.terminal else %s.terminal' % (o_, o_, o_),
+                '%s.terminal or %s.res_name' % (o_, o_)):
+            ok = True
     ctx.ob('C01.R7', 'residue_type:source', ok,
            'the residue type is the residue name, replaced by the terminus tag when the atom '
            'carries one', gmod, rt[0] if rt else gi)
